@@ -12,9 +12,9 @@ CLAIMED = {
    ref="5 C13"),
 }
 CLAIMED["C18"] = dict(
-   technique="exhaustive enumeration (all 2^24 RGB colours in the thorough tier; grid + boundary lattice in the quick tier) + Hypothesis-generated colours against an independent integer-metric argmin oracle",
+   technique="exhaustive enumeration (all 2^24 RGB colours: x the two 16-colour systems in the quick tier, x all four systems in the thorough tier; plus a grid + boundary lattice x all systems in the quick tier) + Hypothesis-generated colours, style histories and scheduled threads against an independent integer-metric argmin oracle",
    level="exploration",
-   text="Every clause (gamut, idempotence, unchanged-when-representable, default, nearest palette entry, grey ramp, SGR table) is evaluated on every colour of the enumerated domain for all four target systems; the thorough tier enumerates all 16,777,216 RGB colours and all indexed colours, so that part is exhaustive. The quick tier is a stratified sample, hence exploration.",
+   text="Every clause (gamut, idempotence, unchanged-when-representable, default, nearest palette entry, grey ramp, SGR table) is evaluated on every colour of the enumerated domain for all four target systems; the thorough tier enumerates all 16,777,216 RGB colours and all indexed colours, so that part is exhaustive. The quick tier enumerates all RGB colours for the standard and windows palettes (nearest entry, gamut) and a stratified sample for the other clauses, hence exploration.",
    note="Trusts rich/_palettes.py as the palette data; the distance metric is re-implemented (numpy int64, or pure Python) and any entry at minimum distance is accepted.",
    ref="5 C18")
 CLAIMED["C06"] = dict(
